@@ -36,6 +36,20 @@ pub mod verif_hooks {
     pub static SUBS_FLUSHED: AtomicU64 = AtomicU64::new(0);
     pub static UPDATES_FLUSHED: AtomicU64 = AtomicU64::new(0);
     pub const MANUAL_TICK: std::time::Duration = std::time::Duration::from_millis(15);
+    /// in manual mode: every candidate map handed to a handle, (manager kind, table, pk, cl)
+    pub static SENT: std::sync::Mutex<Vec<Vec<(String, String, Vec<u8>, i64)>>> =
+        std::sync::Mutex::new(Vec::new());
+    pub fn record(kind: &str, candidates: &crate::pubsub::MatchCandidates) {
+        if MANUAL.load(std::sync::atomic::Ordering::SeqCst) && !candidates.is_empty() {
+            let mut one = vec![];
+            for (table, pks) in candidates.iter() {
+                for (pk, cl) in pks.iter() {
+                    one.push((kind.to_string(), table.to_string(), pk.clone(), *cl));
+                }
+            }
+            SENT.lock().unwrap().push(one);
+        }
+    }
 }
 
 pub trait Manager<H> {
@@ -496,6 +510,9 @@ where
 
         trace!(sub_id = %id, %db_version, "found {match_count} candidates");
 
+        #[cfg(corro_verif)]
+        verif_hooks::record(&trait_type, &candidates);
+
         if let Err(e) = handle.changes_tx().try_send(candidates) {
             error!(sub_id = %id, "could not send change candidates to {trait_type} handler: {e}");
             match e {
@@ -590,6 +607,9 @@ where
         }
 
         trace!(sub_id = %id, %db_version, "found {match_count} candidates");
+
+        #[cfg(corro_verif)]
+        verif_hooks::record(&trait_type, &candidates);
 
         if let Err(e) = handle.changes_tx().try_send(candidates) {
             error!(sub_id = %id, "could not send change candidates to {trait_type} handler: {e}");
